@@ -249,6 +249,12 @@ func runC07(cfg hx.Config) error {
 	for i := 0; i < nSchemas; i++ {
 		schemas = append(schemas, g.schema(3, true))
 	}
+	// thorough tier: the raw emitted documents, one per line, for the Python metaschema check
+	var rawDocs *os.File
+	if p := os.Getenv("C07_RAWDOCS"); p != "" {
+		rawDocs, _ = os.Create(p)
+		defer rawDocs.Close()
+	}
 	seen := map[string]bool{}
 	for _, s := range schemas {
 		text := s.String()
@@ -268,6 +274,9 @@ func runC07(cfg hx.Config) error {
 			continue
 		}
 		out.Emit("c07 doc "+text, b01(c.wf)+" "+c.doc)
+		if rawDocs != nil {
+			fmt.Fprintf(rawDocs, "%s\t%s\n", text, c.raw)
+		}
 		if c.v == nil {
 			continue
 		}
